@@ -69,18 +69,24 @@ _M1, _M2, _M = sp.symbols("m1 m2 m", positive=True)
 TOL = 1e-8
 
 
+_MODE = {"cse": False, "scalars": False}  # how the real code is evaluated: lambdify(cse=...) and one-element arrays vs Python scalars
+
+
 @functools.lru_cache(maxsize=None)
-def _fn(name: str, equal: bool):
+def _fn(name: str, equal: bool, cse: bool = False):
     cls = getattr(PSP, name)
     if equal:
-        return sp.lambdify([_S, _M], cls(_S, _M, _M).doit(), "numpy")
-    return sp.lambdify([_S, _M1, _M2], cls(_S, _M1, _M2).doit(), "numpy")
+        return sp.lambdify([_S, _M], cls(_S, _M, _M).doit(), "numpy", cse=cse)
+    return sp.lambdify([_S, _M1, _M2], cls(_S, _M1, _M2).doit(), "numpy", cse=cse)
 
 
 def real_value(cls, s, *masses, dtype=complex) -> complex:
     """Value of the real class at a point: cls(s, m1, m2) (two masses) or cls(s, m, m) (one mass)."""
-    f = _fn(cls.__name__, len(masses) == 1)
-    args = [np.array([x], dtype=dtype) for x in (s, *masses)]
+    f = _fn(cls.__name__, len(masses) == 1, _MODE["cse"])
+    if _MODE["scalars"]:
+        args = [dtype(x) for x in (s, *masses)]
+    else:
+        args = [np.array([x], dtype=dtype) for x in (s, *masses)]
     with np.errstate(all="ignore"):
         out = np.asarray(f(*args), dtype=complex).reshape(-1)
     return complex(out[0])
@@ -395,6 +401,30 @@ def build(chk: Check) -> None:
         _equal_mass(g)
         _continuity(g)
     _selftests(Gen(chk, ""))
+    _numeric_instances(chk)
+
+
+def _numeric_instances(chk: Check) -> None:
+    """Bounded, the way the classes are USED: doit() + lambdify, evaluated on the deterministic grid of `search` with real (float)
+    dtype where s > 0 and complex dtype everywhere, as one-element arrays and as Python scalars, cse off and on. The E1 obligations are
+    about the SymPy trees; the generated NumPy code (ComplexSqrt's printer, dtype promotion in sqrt/log) is only reached here."""
+    fmap = {"q2": F + "BreakupMomentumSquared.evaluate", "csqrt": "ampform.sympy.math.ComplexSqrt._numpycode", "above": F + "PhaseSpaceFactorProtocol", "window": F + "PhaseSpaceFactorSWave.evaluate",
+            "equal": F + "EqualMassPhaseSpaceFactor.evaluate", "cont": F + "chew_mandelstam_s_wave"}
+    for cse, scalars in ((False, False), (True, False), (False, True)):
+        for clause in ("q2", "csqrt", "above", "window", "equal", "cont"):
+            def rep(_m=None, clause=clause, cse=cse, scalars=scalars):
+                old = dict(_MODE)
+                _MODE.update(cse=cse, scalars=scalars)
+                try:
+                    r = search(clauses=(clause,))
+                finally:
+                    _MODE.update(old)
+                if r.get("reproduced"):
+                    r["evaluation"] = f"lambdify(cse={cse}), {'Python scalars' if scalars else 'one-element arrays'}"
+                return r
+
+            r = rep()
+            chk.struct(f"numeric_instances.{clause}[cse={int(cse)};{'scalars' if scalars else 'arrays'}]", not r["reproduced"], fmap[clause], witness=r, replay=rep, bounded=True)
 
 
 # ---- ComplexSqrt ------------------------------------------------------------------------------------
